@@ -115,22 +115,22 @@ Fixpoint pp_stmt (s : stmt) : list tok :=
   | SUnit sp e path p =>
       tpl sp "if ! matches ! ( $0 , $1 ) { $2 }" [pp_vexpr e; p_toks path; pp_push p]
   | SVariant sp e path binders body p =>
-      tpl sp "# [ allow ( unreachable_patterns ) ] match & $0 { $1 ( $2 ) => { $3 } , _ => { $4 } }"
+      tpl sp "# [ allow ( unreachable_patterns ) ] match & ( $0 ) { $1 ( $2 ) => { $3 } , _ => { $4 } }"
           [pp_vexpr e; p_toks path; sep_by (comma sp) (map (pp_binder NElem) binders);
            flat_map pp_stmt body; pp_push p]
   | SStruct sp e path fields rest body p =>
-      tpl sp "# [ allow ( unreachable_patterns ) ] match & $0 { $1 { $2 $3 } => { $4 } , _ => { $5 } }"
+      tpl sp "# [ allow ( unreachable_patterns ) ] match & ( $0 ) { $1 { $2 $3 } => { $4 } , _ => { $5 } }"
           [pp_vexpr e; p_toks path;
            sep_by (comma sp) (map (fun f => (pp_field_name f ++ [TPunct ":" false sp] ++ pp_field_binder f)%list) fields);
            (if rest then match fields with [] => tpl SCall ".." [] | _ => tpl SCall ", .." [] end else []);
            flat_map pp_stmt body; pp_push p]
   | SSeq body => flat_map pp_stmt body
   | STuple e binders body =>
-      tpl SCall "# [ allow ( unreachable_patterns ) ] match & $0 { ( $1 ) => { $2 } , _ => unreachable ! ( $3 ) , }"
+      tpl SCall "# [ allow ( unreachable_patterns ) ] match & ( $0 ) { ( $1 ) => { $2 } , _ => unreachable ! ( $3 ) , }"
           [pp_vexpr e; sep_by (comma SCall) (map (pp_binder NTupleElem) binders);
            flat_map pp_stmt body; str_lit "Plain tuple match should always succeed" SCall]
   | SRange sp e r _ p =>
-      tpl sp "match & $0 { $1 => { } , _ => { $2 } }" [pp_vexpr e; r; pp_push p]
+      tpl sp "match & ( $0 ) { $1 => { } , _ => { $2 } }" [pp_vexpr e; r; pp_push p]
   | SSlice e parts body p =>
       tpl SCall "match ( $0 ) . as_slice ( ) { [ $1 ] => { $2 } _ => { $3 } }"
           [pp_vexpr e; sep_by (comma SCall) (map pp_part parts); flat_map pp_stmt body; pp_push p]
